@@ -713,11 +713,25 @@ Definition self_blocked (s : bstate) (a : actor) : bool :=
   | Some (ILock h :: _) => match assoc_get (seqlocks s) (r_id h) with Some b => Nat.eqb a b | None => false end
   | _ => false
   end.
+(* ... or it waits for a mutex whose holder is (transitively) stuck in that exception: a victim of the same cycle *)
+Fixpoint excused_wait (fuel : nat) (s : bstate) (a : actor) : bool :=
+  match fuel with
+  | 0 => false
+  | S f =>
+    match assoc_get (code s) a with
+    | Some (ILock h :: _) =>
+        match assoc_get (seqlocks s) (r_id h) with
+        | Some b => Nat.eqb a b || excused_wait f s b
+        | None => false
+        end
+    | _ => false
+    end
+  end.
 Definition ok03d (i : binput) (o : bobs) : bool :=
   match bo_unfinished o with
   | [] => true
   | ts => match model_run i with
-          | Some r => forallb (self_blocked (rs_state r)) ts
+          | Some r => forallb (excused_wait 8 (rs_state r)) ts
           | None => false
           end
   end.
